@@ -21,3 +21,27 @@ def evolve(a0, mu2_0, mu2_1, nf, nloops):
 
     sol = solve_ivp(rhs, [np.log(mu2_0), np.log(mu2_1)], [a0], rtol=1e-11, atol=1e-14, method="DOP853")
     return float(sol.y[0, -1])
+
+
+def eko_alphas(theory):
+    """alpha_s(mu) from eko's Couplings configured from the card by this harness (eko is a trusted dependency): heavy-quark masses,
+    matching ratios, mass scheme (POLE/MSBAR), evolution method, loop order and reference point all taken from the card; the number of
+    flavours follows the scheme (NfFF for FFNS/FFN0/FONLL-*, threshold counting for ZM-VFNS)."""
+    from eko.couplings import Couplings, couplings_mod_ev
+    from eko.io import dictlike, runcards, types
+    from eko.matchings import Atlas, nf_default
+    from eko.quantities.heavy_quarks import MatchingScales, QuarkMassScheme
+
+    new = runcards.Legacy(theory=dict(theory), operator={}).new_theory
+    meth = runcards.Legacy.MOD_EV2METHOD.get(theory["ModEv"], theory["ModEv"])
+    meth = couplings_mod_ev(dictlike.load_enum(types.EvolutionMethod, meth))
+    m2 = [float(m) ** 2 for m, _ in new.heavy.masses]
+    k2 = [float(k) ** 2 for k in new.heavy.matching_ratios]
+    sc = Couplings(couplings=new.couplings, order=new.order, method=meth, masses=m2,
+                   hqm_scheme=QuarkMassScheme.MSBAR if str(theory.get("HQ", "POLE")).upper() == "MSBAR" else QuarkMassScheme.POLE,
+                   thresholds_ratios=k2)  # fmt: skip
+    atlas = Atlas(matching_scales=MatchingScales([a * b for a, b in zip(m2, k2)]), origin=(theory["Qref"] ** 2, theory["nfref"]))
+    if theory["FNS"] == "ZM-VFNS":
+        return lambda mu: float(sc.a_s(mu * mu, nf_to=nf_default(mu * mu, atlas))) * 4.0 * np.pi
+    nf = int(theory["NfFF"])
+    return lambda mu: float(sc.a_s(mu * mu, nf_to=nf)) * 4.0 * np.pi
